@@ -289,6 +289,11 @@ impl Check for C04 {
 				}
 			}
 			LONG_HORIZON.with(|h| h.set(None));
+			if pair == LONG_PAIRS[0] {
+				if let Err(p) = catch(|| direction_flip(ctx)) {
+					ctx.fail(format!("panic: {} :: direction flip", p), "");
+				}
+			}
 			return;
 		}
 		if idx >= g + NCMD_CASES {
@@ -834,6 +839,54 @@ fn run_commands(sc: &Scene, at: usize, c1: Cmd, second: Option<(usize, Cmd)>, ct
 // the device cuts time into callbacks
 
 /// slicing data that is already sliced: positions are those of the whole audio, an open end means the end of the audio
+/// the position is accumulated with the sign of the rate: T seconds at rate +r and then T seconds at rate -r (the change
+/// issued between two buffers) bring the playhead back to where it was, to within the buffer in which the rate turns
+fn direction_flip(ctx: &mut Ctx) {
+	let sr = 1000u32;
+	let frames: Vec<Frame> = (0..4096).map(|i| Frame::from_mono(((i * 37) % 101) as f32 / 256.0)).collect();
+	for (chunk, ncbs) in [(1usize, [24usize, 40]), (8, [5, 12]), (64, [3, 10])] {
+		for (r0, reverse, start) in [(1.0f64, false, 0usize), (-1.0, false, 2000), (1.0, true, 0), (2.0, false, 0)] {
+			for ncb in ncbs {
+				ctx.evals += 1;
+				let data = rig::static_data(sr, frames.clone()).reverse(reverse).playback_rate(PlaybackRate(r0)).start_position(PlaybackPosition::Samples(start));
+				let (mut sound, mut h) = data.into_sound().expect("into_sound");
+				let info = MockInfoBuilder::new().build();
+				let mut out = vec![Frame::ZERO; chunk];
+				let dt = 1.0 / sr as f64;
+				let run = |sound: &mut Box<dyn Sound>, out: &mut Vec<Frame>, n: usize| {
+					for _ in 0..n {
+						sound.on_start_processing();
+						sound.process(out, dt, &info);
+					}
+				};
+				run(&mut sound, &mut out, ncb);
+				sound.on_start_processing();
+				let p_mid = h.position() * sr as f64;
+				h.set_playback_rate(PlaybackRate(-r0), kira::Tween { start_time: kira::StartTime::Immediate, duration: std::time::Duration::ZERO, easing: kira::Easing::Linear });
+				run(&mut sound, &mut out, ncb);
+				sound.on_start_processing();
+				let p_end = h.position() * sr as f64;
+				let p_start = if reverse { (4096 - 1 - start) as f64 } else { start as f64 };
+				let travelled = (p_mid - p_start).abs();
+				// the turn costs at most the buffer in which it happens (the rate is interpolated across it) plus the look-ahead
+				// (the heard position trails the transport by the interpolation window, on the way out and on the way back; inside
+				// the turning buffer the speed is interpolated through zero)
+				let tol = 8.0 * r0.abs() + 0.6 * chunk as f64 * r0.abs();
+				ctx.transitions += 2 * ncb as u64;
+				if (p_end - p_start).abs() > tol || travelled < (ncb * chunk) as f64 * r0.abs() - tol {
+					ctx.fail(
+						"after playing T at rate +r and T at rate -r the playhead is not back where it started (the direction does not follow the sign of the rate in the buffer in which it changes) :: direction flip".to_string(),
+						format!("4096-frame static sound at {} Hz{}, rate {}, start {}: {} buffers of {} frames, set_playback_rate({}, instant), {} more buffers: position {} -> {} -> {} (frames), tolerance {}", sr, if reverse { ", reversed" } else { "" }, r0, start, ncb, chunk, -r0, ncb, p_start, p_mid, p_end, tol),
+					);
+				} else {
+					ctx.nontrivial_extra += 1;
+				}
+				ctx.state(hash64(&("flip", chunk, r0.to_bits(), reverse, ncb)));
+			}
+		}
+	}
+}
+
 fn reslice(ctx: &mut Ctx) {
 	let info = MockInfoBuilder::new().build();
 	for len in [6usize, 10] {
